@@ -149,11 +149,55 @@ def clause4(P, res):
         res.unclassified(rid, "batch-mut-futures", f"expected several SendBatchMutFuture types, found {n}")
 
 
+def clause5(P, res):
+    rid = "C09-5"
+    res.rule(rid, "physical slot addressing: in ring types that keep a `mask` (physical size - 1) next to a logical capacity, the index of every bounds-checked "
+                  "access to the slot buffer is either `x & mask` or is computed without the logical capacity — a walk bounded by the logical capacity skips "
+                  "(never drops, never reads) the physical slots beyond it once the ring has wrapped")
+    n = 0
+    for adt, a in sorted(P.adts.items()):
+        if not adt.startswith("fibre::") or not common.in_scope(adt):
+            continue
+        fields = {f["name"]: f for f in P.adt_fields(adt)}
+        logical = [f for f in fields if re.fullmatch(r"cap|capacity|logical_cap", f)]
+        if "mask" not in fields or not logical:
+            continue
+        for b in P.bodies.values():
+            if b.self_adt != adt or "::tests::" in b.id:
+                continue
+            for e in b.events:
+                # bounds check of a built-in index: assert(Lt(idx, PtrMetadata(&raw (*self).buf)))
+                if e.kind != "assign" or e.data["r"]["k"] != "bin" or e.data["r"]["op"] != "Lt":
+                    continue
+                lim = b.def_event_of_operand(e.data["r"]["b"])
+                if lim is None or lim.kind != "assign" or lim.data["r"]["k"] != "un" or lim.data["r"]["op"] != "PtrMetadata":
+                    continue
+                n += 1
+                key = f"{b.id}:index#{sum(1 for x in b.events if x.kind == 'assign' and x.pos < e.pos and x.data['r']['k'] == 'bin' and x.data['r']['op'] == 'Lt')}"
+                idx = e.data["r"]["a"]
+                d = b.def_event_of_operand(idx)
+                masked = d is not None and d.kind == "assign" and d.data["r"]["k"] == "bin" and d.data["r"]["op"] == "BitAnd" and \
+                    any(b.path_of_operand(d.data["r"][s]).endswith(".mask") for s in ("a", "b"))
+                evs, _, _ = mir.operand_sources(b, idx)
+                uses_cap = [x for x in evs if x.kind == "assign" and x.data["r"]["k"] == "use" and mir.op_place(x.data["r"]["o"]) is not None
+                            and b.path_of_place(mir.op_place(x.data["r"]["o"])).rsplit(".", 1)[-1] in logical]
+                if masked:
+                    res.holds(rid, key, "index is `x & mask`", where=e.loc)
+                elif uses_cap:
+                    res.violated(rid, key, f"slot index at {e.loc} is derived from the logical capacity (`{logical[0]}` read at {uses_cap[0].loc}) and not masked: physical slots "
+                                 "at or beyond the logical capacity are skipped after wrap-around (their values are never dropped)", where=e.loc)
+                else:
+                    res.holds(rid, key, "index computed without the logical capacity", where=e.loc)
+    if n < 2:
+        res.violated(rid, "ring-index-sites", f"expected >= 2 bounds-checked slot accesses in rings with mask+capacity, found {n}")
+
+
 def run(P, ctx):
     res = Result("C09")
     res.extra["explanation"] = "Ownership shapes: storage owners drain on drop, forget-conversions move each owning field once, recovered items re-enter."
     clause1(P, res)
     clause2(P, res)
     clause4(P, res)
+    clause5(P, res)
     res.notes.append("take-once cell discipline (MaybeUninit reads guarded by the publishing state) is decided under C01-3 / C07-2 and not repeated here")
     return res
